@@ -18,9 +18,9 @@ BUDGET_S = {'quick': 150, 'thorough': 1500}
 CASE_TIMEOUT_S = 600
 STUBS = ['pathos ParallelPool -> SimPool (pickle isolation, PRNG order, worker exception -> None)',
          'cli.common.signal -> FakeSignal (never fires in this engine)']
-PROBES = ['batch_with_skipped_tx', 'last_batch_partial', 'threads_gt_1', 'multi_file', 'idx_used',
-          'index_dir_used', 'cache_evicting', 'tx_with_fusion_and_circ', 'noncanonical_only',
-          'ref_nonempty', 'shadow_hashseed_compared']
+PROBES = ['corpus_case', 'batch_with_skipped_tx', 'last_batch_partial', 'threads_gt_1', 'multi_file', 'idx_used',
+          'index_dir_used', 'foreign_index_refused', 'index_dir_updated_pool', 'cache_evicting', 'tx_with_fusion_and_circ', 'noncanonical_only',
+          'ref_nonempty', 'shadow_hashseed_compared', 'real_pool_calibrated']
 RULE = ('case = generated reference (3-9 genes) + SNV/INDEL/fusion/circRNA/alt-splicing records; one reference '
         'execution (threads=1, one GVF per kind, no idx, raw reference) and 3-5 perturbed executions drawing '
         'threads 1..8 through SimPool, a random partition/order of records into files, idx subset, index dir, '
@@ -31,7 +31,8 @@ ASSUMPTIONS = [
     'SimPool reproduces pathos.ParallelPool.map semantics (submit all, results in submission order, worker '
     'exception -> None); real OS scheduling is not modelled (a map call is a barrier in both)',
     'compat layer L0 restores the Biopython constructor contract the repository was written against',
-    'workload = moPepGen.fake references; no multi-isoform genes except in the demo corpus',
+    'workload = moPepGen.fake references (3/4 of the cases) and corpus references copied from the repository\'s '
+    'integration tests (1/4: demo reference with multi-isoform gene, 32 downsampled real references)',
 ]
 
 
@@ -45,12 +46,15 @@ def tasks(seed, tier, n):
         ts.append({'case': i, 'mode': 'main', 'hclass': i % 4})
         if i % 4 == 1:
             ts.append({'case': i, 'mode': 'shadow', 'hclass': (i + 1 + (i // 4) % 3) % 4})
-    return ts
+    # stub calibration against the real pathos pool (informational, DESIGN 3.2): 1 input on every quick run,
+    # 4 on a thorough run
+    calib = [{'case': j * 5 + 2, 'mode': 'calib', 'hclass': j % 4} for j in range(1 if tier == 'quick' else 4)]
+    return calib + ts
 
 
 def gen(seed, idx):
     rng = R.case_rng(seed, ENGINE, idx)
-    case = cvcase.gen_case(rng)
+    case = cvcase.gen_corpus_case(rng) if rng.random() < 0.25 else cvcase.gen_case(rng)
     n_pert = rng.randint(3, 5)
     perts = []
     n_tx = case['stats']['n_tx']
@@ -82,12 +86,19 @@ def signature(case, p, run):
     n_tx = case['stats']['n_tx']
     return {'threads': p['threads'], 'batches': [b['size'] for b in run.batches], 'skipped': skipped,
             'files': len(p['layout']['files']), 'idx': [int(bool(f.get('idx'))) for f in p['layout']['files']],
-            'index_dir': bool(p['layout'].get('index_dir')), 'salt': bool(p['sched'].get('salt')),
+            'index_dir': str(p['layout'].get('index_dir') or False), 'salt': bool(p['sched'].get('salt')),
             'evicting': p['sched'].get('tx_cache', 10) < n_tx}
 
 
-def compare(ref_run, run):
+def compare(ref_run, run, layout=None):
     """Returns None if equal else a detail dict."""
+    if layout is not None and layout.get('index_dir') == 'foreign':
+        # the directory holds no pool for the run's parameters: it must be refused, never used
+        if run.ok:
+            a, b = set(ref_run.fasta), set(run.fasta)
+            return {'foreign_index_used': True, 'n_ref': len(a), 'n_pert': len(b), 'lost': sorted(a - b)[:5],
+                    'gained': sorted(b - a)[:5], 'n_lost': len(a - b), 'n_gained': len(b - a)}
+        return None
     if not run.ok:
         return {'perturbed_raised': run.exc, 'tb': (run.exc_tb or '')[-800:]}
     a, b = set(ref_run.fasta), set(run.fasta)
@@ -111,7 +122,7 @@ def single_dim(case, p, dim):
     elif dim == 'idx':
         q['layout'] = {'files': [dict(f, idx=True) for f in base_lay['files']], 'index_dir': False}
     elif dim == 'index-dir':
-        q['layout'] = dict(base_lay, index_dir=True)
+        q['layout'] = dict(base_lay, index_dir=p['layout'].get('index_dir'))
     elif dim == 'cache':
         q['sched'] = dict(q['sched'], gene_cache=p['sched'].get('gene_cache', 10),
                           tx_cache=p['sched'].get('tx_cache', 10))
@@ -142,7 +153,7 @@ def attribute(case, workdir, ref_run, p):
             continue
         q = single_dim(case, p, dim)
         run = execute(case, workdir, 'attr', q['layout'], q['threads'], q['sched'])
-        d = compare(ref_run, run)
+        d = compare(ref_run, run, q['layout'])
         if d is not None:
             return dim, q, d
     return 'combined', p, None
@@ -151,6 +162,8 @@ def attribute(case, workdir, ref_run, p):
 def viol_signature(clause, detail):
     if 'perturbed_raised' in detail:
         return f"{clause}:raised:{detail['perturbed_raised'][0]}"
+    if detail.get('foreign_index_used'):
+        return f'{clause}:foreign-index-used'
     kind = 'lost' if detail['n_lost'] and not detail['n_gained'] else \
         'gained' if detail['n_gained'] and not detail['n_lost'] else 'both'
     return f'{clause}:{kind}'
@@ -189,8 +202,36 @@ def run_case(seed, task, tier):
         if task['mode'] == 'shadow':
             out['ref_seqs'] = seqs
             return out
+        if task['mode'] == 'calib':
+            from sim import realpool
+            threads = 3
+            off = 0
+            cwd = wd
+            while len(seqs) < 5 and off < 8:
+                # calibrate on an input that produces peptides and has several transcripts to batch
+                off += 1
+                case, _ = gen(seed, 100000 + idx * 10 + off)
+                if case['stats'].get('corpus'):
+                    continue
+                cwd = Path(wd) / f'alt{off}'
+                r2 = execute(case, cwd, 'ref', cvcase.reference_layout(case), 1, REF_SCHED)
+                out['executions'] += 1
+                seqs = seqset(r2) if r2.ok else []
+            sim_run = execute(case, cwd, 'sim', cvcase.reference_layout(case), threads, {'pool_seed': 1, 'salt': 0})
+            real = realpool.run_real(case, threads)
+            out['executions'] += 2
+            cal = {'case': idx, 'threads': threads, 'n_reference_threads1': len(seqs),
+                   'simpool_ok': sim_run.ok, 'real_pool_ok': real.get('ok'), 'real_pool_error': real.get('error')}
+            if sim_run.ok and real.get('ok'):
+                a, b = set(seqset(sim_run)), set(real['seqs'])
+                cal.update(n_simpool=len(a), n_real_pool=len(b), equal=(a == b),
+                           only_simpool=sorted(a - b)[:5], only_real_pool=sorted(b - a)[:5])
+            out['calibration'] = cal
+            return out
         if seqs:
             probes['ref_nonempty'] = 1
+        if case['stats'].get('corpus'):
+            probes['corpus_case'] = 1
         kinds_per_tx = {}
         for kind, tx, uid, _, _ in ref_run.units:
             kinds_per_tx.setdefault(tx, set()).add(kind)
@@ -214,11 +255,15 @@ def run_case(seed, task, tier):
                 probes['multi_file'] = probes.get('multi_file', 0) + 1
             if any(sig['idx']):
                 probes['idx_used'] = probes.get('idx_used', 0) + 1
-            if sig['index_dir']:
+            if sig['index_dir'] != 'False':
                 probes['index_dir_used'] = probes.get('index_dir_used', 0) + 1
+            if p['layout'].get('index_dir') == 'foreign' and not run.ok:
+                probes['foreign_index_refused'] = probes.get('foreign_index_refused', 0) + 1
+            if p['layout'].get('index_dir') == 'foreign+update':
+                probes['index_dir_updated_pool'] = probes.get('index_dir_updated_pool', 0) + 1
             if sig['evicting']:
                 probes['cache_evicting'] = probes.get('cache_evicting', 0) + 1
-            d = compare(ref_run, run)
+            d = compare(ref_run, run, p['layout'])
             if d is not None:
                 clause, q, d1 = attribute(case, wd, ref_run, p)
                 out['executions'] += 1
@@ -261,9 +306,12 @@ def aggregate(seed, tier, results):
     for r in results:
         r.pop('case_for_shadow', None)
         r.pop('ref_seqs', None)
-    extra = {'hashseed_pairs_compared': compared}
+    extra = {'hashseed_pairs_compared': compared,
+             'stub_calibration': [r['calibration'] for r in results if r.get('calibration')]}
     if results:
         results[0].setdefault('probes', {})['shadow_hashseed_compared'] = compared
+        results[0]['probes']['real_pool_calibrated'] = sum(
+            1 for r in results if (r.get('calibration') or {}).get('equal'))
     return violations, extra
 
 
@@ -315,7 +363,7 @@ def replay(rep):
         if not ref_run.ok:
             return []
         run = execute(case, wd, 'pert', p['layout'], p['threads'], p['sched'])
-        d = compare(ref_run, run)
+        d = compare(ref_run, run, p['layout'])
         if d is None:
             return []
         return [dict(rep, detail=d, signature=viol_signature(rep['clause'], d))]
